@@ -183,6 +183,14 @@ pub fn gen(r: &mut Rng, _tier: &str, _i: usize, stats: &mut BTreeMap<String, u64
                 let p = *r.pick(&cands);
                 damaged.insert_str(p, *r.pick(&[" 7", " {w}", " (3)"]));
                 kname = "extra_operand";
+                // half of the time also a trailing binary operator: operand and operator counts fit
+                // again, the text still ends in an operator
+                if r.chance(1, 2) {
+                    let bins: Vec<&OpCfg> = t.iter().filter(|c| c.bin.is_some()).collect();
+                    damaged.push(' ');
+                    damaged.push_str(&bins[r.below(bins.len())].name);
+                    kname = "extra_operand_trailing_op";
+                }
             }
         }
         4 => {
